@@ -67,6 +67,7 @@ type Exec struct {
 	initObjects int
 
 	tagIDs map[string]int64
+	oblCache map[*ssa.Function]bool
 	fixed  map[string]int64 // cube splitting: labels fixed to constants in this run
 }
 
@@ -743,7 +744,11 @@ func (fr *frame) step(ins ssa.Instruction, lg *Term, b *ssa.BasicBlock) {
 						return
 					}
 				}
-				fr.env[x] = ex.load(p, g, where())
+				v := ex.load(p, g, where())
+				if v == nil {
+					v = ex.zeroValue(x.Type()) // every target is nil: the panic is recorded, the value is irrelevant
+				}
+				fr.env[x] = v
 			case *ElemRef:
 				fr.env[x] = ex.loadElem(p, g, where(), x.Type())
 			default:
